@@ -818,6 +818,9 @@ class VMF:
             Cordon.parse(map_obj, ent)
 
         map_spawn = tree.find_block('world', or_blank=True)
+        # The placeholder worldspawn VMF() created is about to be replaced, it must not stay in the lookups.
+        _remove_copyset(map_obj.by_class, 'worldspawn', map_obj.spawn)
+        _remove_copyset(map_obj.by_target, None, map_obj.spawn)
         map_obj.spawn = worldspawn = Entity.parse(map_obj, map_spawn, _worldspawn=True)
         # Ensure the correct classname, which adds to by_class as a side effect. It is possible
         # to name worldspawn, kinda pointless though.
